@@ -139,7 +139,8 @@ def strings(maxlen):
             yield u''.join(t)
 
 
-LONG_PAYLOADS = ['"' * 40, u'\xe9' * 40 + '"', '\\' * 33 + '"', '$' * 100 + '\\', u'\u20ac"' * 35, 'a"' * 64, u'\xe9' * 1200,
+LONG_PAYLOADS = ['HTTP://Example.COM/Path?Q=1#Frag', 'Https://USER@Host.Example:8080/A/B', 'FILE:///C:/Dir/File.TXT', 'MAILTO:Some.One@Example.ORG',
+                 '"' * 40, u'\xe9' * 40 + '"', '\\' * 33 + '"', '$' * 100 + '\\', u'\u20ac"' * 35, 'a"' * 64, u'\xe9' * 1200,
                  ('\\n' * 500) + '"', u'\u043f\u0440\u0438\u0432\u0435\u0442 ' * 300, '\t' * 1100, 'x' * 5000 + '"' + 'y' * 5000,
                  '`' * 50 + '\\', ',' * 300, '\n' * 64, '>>' * 40 + '<<' * 40]
 
